@@ -1135,6 +1135,18 @@ func runFSM(t *testing.T, prog *hx.Program, dec *simrt.Decider, verbose bool, ch
 				if uint64(len(f.log)) > n.target {
 					n.target += 1 + uint64(op.Arg(1, 0))%(uint64(len(f.log))-n.target)
 				}
+			case "advpoll":
+				// a lagging node catches up while a client keeps asking it (assignments are served by API
+				// goroutines next to the goroutine that applies the committed operations)
+				n := f.nodes[1+int(op.Arg(0, 0))%(nn-1)]
+				if uint64(len(f.log)) > n.target {
+					n.target += 1 + uint64(op.Arg(1, 0))%(uint64(len(f.log))-n.target)
+				}
+				if f.onPoll != nil {
+					for k := 0; k < 1+int(op.Arg(2, 0))%4 && n.applied < n.target && n.applyErr == "" && !h.stop && len(h.s.Panics) == 0; k++ {
+						f.onPoll(n, op.Arg(3, 0))
+					}
+				}
 			case "settle":
 				if settle() && check != nil && len(h.s.Panics) == 0 {
 					check(f, false)
